@@ -9,8 +9,9 @@ outside the sub-directory included, in the parent's own entry order.
 backend of the same kind that holds the same view tree, with the parent snapshotted before and
 after the call (`WStep`).  Besides the steps handed in by c01 a small directed corpus is run:
 closed wrappers (every op must raise FilesystemClosed and leave the parent alone),
-`ClosingSubFS.close`, `removetree("/")`, `getinfo("/")`, climbing paths, and the decided
-exception classes of `FsProofs/WrapRefines.lean` (NUL + `..`, `openbin` bad mode + climbing,
+`ClosingSubFS.close`, `removetree("/")`, `getinfo("/")`, climbing paths, NUL paths (refused like the
+reference does since the repair of `SubFS.delegate_path`: `sub_nul_path_repaired`), and the decided
+exception classes of `FsProofs/WrapRefines.lean` (`nulRootTest`, `openbin` bad mode + invalid path,
 `copydir` into itself).
 
 Verdicts.  A model/code disagreement is `found_input=False` (broken correspondence: the
@@ -202,7 +203,8 @@ _DIRECTED_OPS = [
     # decided exception classes of WrapRefines
     ("exists", "z\x00/../b"), ("readbytes", "z\x00/../b"), ("writebytes", "z\x00/../n", b"n"),
     ("exists", "z\x00"), ("exists", "z\x00/../.."), ("move", "z\x00", "../x", False), ("copy", "..", "z\x00", False),
-    ("removedir", "z\x00/../.."), ("removetree", "z\x00/../.."),
+    ("removedir", "z\x00/../.."), ("removetree", "z\x00/../.."), ("removedir", "z\x00/.."), ("removetree", "z\x00/.."),
+    ("remove", "z\x00/../b"), ("getinfo", "z\x00/.."), ("copy", "b", "z\x00/../n", True), ("openbin", "z\x00", "zz"),
     ("openbin", "../q", "zz"), ("openbin", "b", "zz"), ("openbin", "..", "r"),
     ("copydir", "a", "a/d/zz", False), ("copydir", "a", "a/d/zz", True), ("copydir", "nope", "nope/zz", False),
     ("copydir", "b", "b/zz", True), ("copydir", "a", "a", False), ("copydir", "a", "a/d", True),
@@ -244,38 +246,6 @@ def directed():
 # ----------------------------------------------------------------------------- entry point
 
 
-def known_class(s):
-    """open-known-finding class of a step (see findings/C01-subfs-nul-normalised-away.md): a SubFS is
-    handed a path that contains NUL in a component which normalisation removes (`"z\\0/../b"`); the
-    SubFS normalises before its parent looks at the characters, so the call goes through, while the
-    reference (and every plain backend) raises InvalidCharsInPath."""
-    if not s.kind.startswith("sub"):
-        return None
-    import fs.path as P
-
-    for x in s.op[1:]:
-        if isinstance(x, str) and "\0" in x:
-            try:
-                if "\0" not in P.normpath(x):
-                    return "subfs-nul-normalised-away"
-            except Exception:
-                pass
-    return None
-
-
-def _proposed_findings():
-    """signatures proposed in findings/known_findings_additions.json (not yet merged into
-    known_findings.json by the integrator) — treated like open known findings by this module"""
-    import json
-    import os
-
-    path = os.path.join(vlib.VERIF, "findings", "known_findings_additions.json")
-    try:
-        return {f["signature"]: f for f in json.load(open(path)) if f.get("property") == "C01"}
-    except Exception:
-        return {}
-
-
 def judge_wrap_exact(rep, steps, drv, ref_judge=None):
     """`steps`: the fsharness.Step list of the c01 run; the sub-mem / wrap-mem ones are re-executed
     with parent snapshots and compared with `wrapm.step` exactly; then the directed corpus, which is
@@ -304,15 +274,7 @@ def judge_wrap_exact(rep, steps, drv, ref_judge=None):
         dsteps = [H.Step(ws.kind, ws.view_pre, ws.op, ws.impl, ws.view_post, 2 * 10 ** 6 + i, 0)
                   for i, ws in enumerate(done)
                   if ws.directed and not ws.closed and ws.mkind != "csub" and ws.op[0] != "close"]
-        proposed = _proposed_findings()
         for st, m in zip(dsteps, H.model_replies(drv, dsteps)):
-            kc = known_class(st)
-            sig = "C01/known/" + kc if kc else None
-            if sig and rep.match_known(sig) is None and sig in proposed:
-                # proposed, not merged yet: report it the same way, never as a violation
-                if tuple(st.impl[:2])[0] != m[0][0]:
-                    rep.known(proposed[sig])
-                continue
             ref_judge(rep, st, m)
     return len(done)
 
